@@ -225,6 +225,7 @@ type stepper struct {
 	c   *vf.Ctx
 	// per-run observations
 	errs, oks, groupsMax int
+	pruneSampled         bool
 }
 
 func resString(r interface{}) string {
@@ -273,8 +274,42 @@ func (s *stepper) step(cmd Cmd, before string) (issues []Issue, after string, pa
 			s.c.Distinct("cmd-type-returned-nil", cmd.Name)
 		}
 	}
+	if cmd.Name == "PruneGroupsCommand" && res == "" && s.c != nil {
+		// Observation, not a verdict (the property does not speak about it): with
+		// expand-shards-enable the shard id ranges of groups interleave after a node join, and
+		// pruneShardGroups locates a shard by id range, so it can mark a shard of ANOTHER,
+		// live group as deleted.
+		if n := markDeleteFlips(before, after); n > 1 {
+			s.c.Count("observation:PruneGroups set MarkDelete on more than the one named shard/index", 1)
+			if !s.pruneSampled {
+				s.pruneSampled = true
+				s.c.Sample(map[string]any{"observation": "PruneGroups changed MarkDelete of " + fmt.Sprint(n) + " shards/indexes", "cmd": cmd.Desc})
+			}
+		}
+	}
 	issues = append(issues, s.mon.Check(d, cmd.Name)...)
 	return issues, after, nil
+}
+
+// markDeleteFlips counts the MarkDelete leaves that are false in one dump and true in the other.
+func markDeleteFlips(before, after string) int {
+	if strings.Count(before, ".Shards.len=") != strings.Count(after, ".Shards.len=") ||
+		strings.Count(before, ".Indexes.len=") != strings.Count(after, ".Indexes.len=") {
+		return 0 // a group was removed: paths shifted, no comparison
+	}
+	b := map[string]bool{}
+	for _, l := range strings.Split(before, "\n") {
+		if strings.HasSuffix(l, ".MarkDelete=false") {
+			b[strings.TrimSuffix(l, "false")] = true
+		}
+	}
+	n := 0
+	for _, l := range strings.Split(after, "\n") {
+		if strings.HasSuffix(l, ".MarkDelete=true") && b[strings.TrimSuffix(l, "true")] {
+			n++
+		}
+	}
+	return n
 }
 
 type witness struct {
